@@ -2,6 +2,7 @@
 from lib import core, macro_check as mc
 
 LEVEL = 'proof'
+BBH_FEATURES = ['macro']      # harness command families this check needs (fallback build, lib/core.py build_bbh)
 PROP = 'C08'
 CORR = 'bbh MacroProg<_, BlockLogic>::get_instr = MacrosModel.macro_get_instr (stack_get), run_for_infrul loop = macro_run'
 
